@@ -325,6 +325,29 @@ def check_props_file(pid, timeout=900):
     return info
 
 
+def run_coqchk(pid, timeout=2400):
+    """Thorough tier: re-check coq/props/<pid>.vo and everything it depends on with Coq's independent checker and
+    report the axioms of the whole closure (`coqchk -o`)."""
+    vo = os.path.join(COQ, "props", pid + ".vo")
+    info = {"ok": False, "cmd": "coqchk -silent -o -Q %s AQ AQ.props.%s" % (COQ, pid), "axioms": None, "log": ""}
+    if not os.path.exists(vo):
+        info["log"] = "props/%s.vo was not built" % pid
+        return info
+    rc, out, err, wall = _run(["coqchk", "-silent", "-o", "-Q", COQ, "AQ", "AQ.props." + pid], timeout=timeout)
+    info["wall_s"] = round(wall, 1)
+    text = (out or "") + (err or "")
+    info["ok"] = rc == 0 and "CONTEXT SUMMARY" in text
+    m = re.search(r"\* Axioms:(.*?)\n\s*\n\* ", text, re.S)
+    info["axioms"] = re.sub(r"\s+", " ", m.group(1)).strip() if m else None
+    for key, pat in (("type_in_type", r"relying on type-in-type:(.*?)\n\s*\n"), ("unsafe_fixpoints", r"unsafe \(co\)fixpoints:(.*?)\n\s*\n"),
+                     ("assumed_positivity", r"positivity is assumed:(.*?)(?:\n\s*\n|$)")):
+        mm = re.search(pat, text, re.S)
+        info[key] = re.sub(r"\s+", " ", mm.group(1)).strip() if mm else None
+    if not info["ok"]:
+        info["log"] = text[-2000:]
+    return info
+
+
 # --------------------------------------------------------------------------------------
 # running models
 
@@ -436,6 +459,7 @@ class Ctx:
         self.overlay = None
         self.build = None
         self.props = None
+        self.coqchk = None
         self.t0 = time.time()
         self.known = load_known_findings()
         self.replay_dir = os.path.join(VERIF, "replays")
